@@ -926,8 +926,34 @@ theorem callWith_fr (optsOf : List (Option Opts) → Nat → Opts) (E : Env) (A 
         | error e => exact h1.err
         | ok vals =>
           simp only
-          have h2 := mkBinding_fr vals s1
-          exact h1.comp (h2.weaken (fun i hi => List.mem_append_right _ (by simpa [resIdsKV] using hi)) (fun _ h => h))
+          have hb : ∀ s2, Fr (A ++ resIdsKV (Except.ok vals)) s2 (mkBinding vals s2).2 (resIds (mkBinding vals s2).1) :=
+            fun s2 => (mkBinding_fr vals s2).weaken
+              (fun i hi => List.mem_append_right _ (by simpa [resIdsKV] using hi)) (fun _ h => h)
+          cases hret : d.ret with
+          | none => exact h1.comp (hb s1)
+          | some rt =>
+            obtain ⟨fname, ty⟩ := rt
+            simp only
+            cases hl : lookupKV fname (vals.map (·.1)) (vals.map (·.2)) with
+            | none => exact h1.comp (hb s1)
+            | some v =>
+              simp only
+              have hv : ∀ i ∈ v.mutIds, i ∈ A ++ resIdsKV (Except.ok vals) := fun i hi =>
+                List.mem_append_right _ (by
+                  simp only [resIdsKV]
+                  exact mem_mutIdsL.mpr ⟨v, lookupKV_mem _ _ _ _ hl, hi⟩)
+              have h2 := conv_fr E (A ++ resIdsKV (Except.ok vals)) (fun i hi => List.mem_append_left _ (hleak i hi))
+                fuelDefault (optsOf d.wrappers wrapper) ty v hv s1
+              cases hc : conv E (optsOf d.wrappers wrapper) fuelDefault ty v s1 with
+              | mk r2 s2 =>
+                rw [hc] at h2
+                cases r2 with
+                | error e => exact (h1.comp h2).err
+                | ok _ =>
+                  simp only
+                  have h12 : Fr A s s2 (resIdsKV (Except.ok vals)) :=
+                    (h1.carry h2.err).weaken (fun _ h => h) (fun i hi => by simpa using hi)
+                  exact h12.comp (hb s2)
     · exact initWith_fr (conv E {} fuelDefault) A E target ks xs hx
         (fun t w hw s => conv_fr E A hleak fuelDefault _ t w hw s) hleak s
 
